@@ -35,7 +35,12 @@ class RecRNG(np.random.Generator):
         return c
 
     def choice(self, a, size=None, replace=True, p=None, axis=0, shuffle=True):
-        cands = list(range(a)) if isinstance(a, (int, np.integer)) else [int(x) for x in a]
+        if isinstance(a, (int, np.integer)):
+            cands = list(range(a))
+        else:
+            # the library draws positions; if a caller hands in something else (floats, ...) keep it as it is: the value drawn is then one of
+            # these, and the logged position is the FIRST candidate equal to it (numpy itself draws a position)
+            cands = [int(x) if float(x).is_integer() and not isinstance(x, (float, np.floating)) else x for x in a]
         pl = None if p is None else [float(x) for x in p]
         if self.script is not None and (self.script or not self.fallback):
             # validate like numpy does, so that error behaviour is the implementation's
@@ -55,7 +60,8 @@ class RecRNG(np.random.Generator):
             k = self.script.pop(0)
             r = cands[k]
         else:
-            r = int(super().choice(a, size=size, replace=replace, p=p, axis=axis, shuffle=shuffle))
-            k = cands.index(r)
+            # draw the POSITION with the generator's own stream (numpy's choice(a, p=p) is a[choice(len(a), p=p)])
+            k = int(super().choice(len(cands), size=size, replace=replace, p=p, axis=axis, shuffle=shuffle))
+            r = cands[k]
         self.log.append((cands, pl, k))
         return r
